@@ -233,3 +233,8 @@ def sizes_of(blocks):
 
 def px_lists(model_px):
     return [list(p) for p in model_px]
+
+
+def coq_agg(name):
+    """the aggregation as a Gallina function list Z -> Z (Model/Coarsen.v: agg_of)"""
+    return {"sum": "(agg_of AggSum)", "max": "(agg_of AggMax)", "min": "(agg_of AggMin)"}[name]
